@@ -5,6 +5,7 @@ import GraphrsModel.ObsCen
 import GraphrsModel.ObsComp
 import GraphrsModel.ObsClu
 import GraphrsModel.ObsComm
+import GraphrsModel.ObsGen
 open Graphrs
 
 /-- `store <specs> <universe> <w> <ops>`: the concrete model's and the specification's
@@ -41,6 +42,10 @@ def handle (line : String) : String :=
       | "clu" => run handleClu
       | "mod" => run handleMod
       | "louv" => run handleLouv
+      | "complete" => run handleComplete
+      | "karate" => run handleKarate
+      | "gnp" => run handleGnp
+      | "gnpstat" => "m.none=0"
       | _ => "bad-request command"
 
 partial def loop (h : IO.FS.Stream) (out : IO.FS.Stream) : IO Unit := do
